@@ -18,7 +18,7 @@ import re
 HERE = os.path.dirname(os.path.abspath(__file__))
 GEN = os.path.join(os.path.dirname(HERE), "coq", "Gen")
 
-ASCII_ALPHA = [ord(c) for c in "abcAB12/:,-_ .\t\\xyZ;|$^!'"]
+ASCII_ALPHA = [ord(c) for c in "abcAB12/:,-_ .\t\\xyZ;|$^!'" + "09z@[`{"]   # incl. the edges of the digit / letter ranges and their +-32 twins
 UNI_ALPHA = [0xE4, 0xC4, 0x17F, 0x3C2, 0x3C3, 0x3A3, 0xB5, 0x3BC, 0x1C5, 0x2079, 0xBA, 0x4F60, 0x345, 0xE9, 0xC9,
              0xDF, 0x1E9E, 0xC6, 0x194, 0x263, 0xA0, 0x3000, 0x0A, 0x1E0B, 0x1E921, 0x1E943, 0x212A, 0x130, 0x2160]
 ALGOS = "FGSPOE"
@@ -263,11 +263,52 @@ def gen(seed, tier, want=None):
             hr = "A" if all(c < 128 for c in h) else "U"
             n = fix_needle(cfg, [norm(cfg, hr, h[i]) for i in pos])
         emit(lines, cfg, "FG" if kind != 3 else "FGSE", h, n, rng)
+        if kind == 0:
+            # more than 65536 matrix cells (offsets into the back-pointer matrix must not be narrowed to 16 bits)
+            for W2, m2 in ((1000, 100), (1100, 90), (40000, 2)):
+                h2 = [rng.choice([ord(c) for c in "ab/ -Xy1"]) for _ in range(W2)]
+                pos2 = sorted(rng.sample(range(W2), m2))
+                pos2[0], pos2[-1] = 0, W2 - 1
+                emit(lines, cfg, "FG", h2, fix_needle(cfg, [norm(cfg, "A", h2[i]) for i in pos2]), rng)
+                # ... and with every row as wide as possible (each needle character found at once)
+                h3 = [ord("a")] * W2
+                for j in range(7, W2, 53):
+                    h3[j] = ord("b")
+                emit(lines, cfg, "FG", h3, [ord("a")] * m2, rng)
         if kind == 4:
             # the match window beyond index 65535 (indices must not be narrowed to 16 bits), with and without a gap
             for W2, tail in ((70003, "q z"), (65536 + rng.randint(1, 900), "q--z"), (131075, "qz z")):
                 h2 = [ord("x")] * (W2 - len(tail)) + [ord(c) for c in tail]
                 emit(lines, cfg[:3] + rng.choice("01"), "FGS", h2, [ord("q"), ord("z")] if "qz" not in tail else [ord("z"), ord("z")], rng)
+    # ---- range edges and case twins: one- and two-character needles over the characters at the edges of the ASCII
+    #      digit / letter ranges and their +-32 neighbours ('@' 'A' 'Z' '[' '`' 'a' 'z' '{' '0' '9' '/' ':'), haystacks that hold
+    #      the needle character, its case twin and its +-32 neighbour at differently rewarded positions ----
+    edge_chars = [ord(c) for c in "@AZ[`az{09/:"]
+    for k in range(nbase // 5):
+        cfg = rand_cfg(rng)
+        c0 = rng.choice(edge_chars)
+        twins = [c0, c0 ^ 32, c0 + 32 if c0 + 32 < 127 else c0 - 32, c0 - 32 if c0 - 32 > 32 else c0 + 32]
+        seps = [32, 47, 45, 95, 120, 49]
+        hay = []
+        for _ in range(rng.randint(2, 5)):
+            hay += [rng.choice(seps)] * rng.randint(0, 2) + [rng.choice(twins)]
+        hay += [rng.choice(seps)] * rng.randint(0, 1)
+        nd = [c0] if rng.random() < 0.7 else [c0, rng.choice(twins)]
+        emit(lines, cfg, "FGSPOE", hay, fix_needle(cfg, nd), rng, all_tags=(k % 3 == 0))
+    # ---- occurrences behind different kinds of boundaries: the same word after whitespace, after a path delimiter, after
+    #      another non-word character, inside a word and at the very start (the best-placed one must win; the early exit
+    #      "cannot get better" of the scanners must use the largest bonus of the configuration) ----
+    for k in range(nbase // 8):
+        cfg = rand_cfg(rng)
+        word = [rng.choice([ord(c) for c in "fobaz9"]) for _ in range(rng.randint(1, 4))]
+        befores = [[32], [47], [45], [58], [120], [9], [92]]
+        rng.shuffle(befores)
+        hay = [] if rng.random() < 0.5 else [ord("a")]
+        for b in befores[:rng.randint(2, 4)]:
+            hay += b + word
+            if rng.random() < 0.3:
+                hay += [ord("q")]
+        emit(lines, cfg, "FGSPO", hay, fix_needle(cfg, word), rng, all_tags=(k % 4 == 0))
     # ---- low-byte collisions: non-ASCII haystack characters whose low byte equals an ASCII needle byte (a truncating
     #      comparison between a code point and a byte would accept them) ----
     for k in range(nbase // 10):
